@@ -591,6 +591,49 @@ def jStep (cfg : JCfg) (s : JState) (b : Nat) : JState × List Tape :=
 
 def jFeed (cfg : JCfg) (s : JState) (chunk : Bytes) : JState × List Tape := runBytes (jStep cfg) s chunk
 
+/-! ### the bulk loop of `TapeDecoder::decode` as written
+
+Each round of `while !iter.is_empty()` first scans a run of bytes in bulk — `skip_chrs`
+(`memchr2`) in `String`, `advance_until` in `Number`, `skip_whitespace` /
+`advance_until(not ws, not ',')` in the value / colon / object / list / top-level arms — and
+then handles the byte that stopped the scan (`next!`/`peek`).  `Escape`, `Unicode` and
+`Literal` are byte loops in the Rust code as well.  Rounds that consume nothing but change the
+stack (push `Value`, pop a finished `Number`) are fused with the round that follows. -/
+
+/-- `states based on skipsByte`: defined below `jStep` users; the bytes the arm on top of the
+stack scans over in bulk -/
+def scanPred (s : JState) (b : Nat) : Bool :=
+  match s.stack with
+  | [] => jsonWs b
+  | .topLevelList :: _ => jsonWs b || b == 44
+  | .object _ :: _ => jsonWs b || b == 44
+  | .list _ :: _ => jsonWs b || b == 44
+  | .value :: _ => jsonWs b
+  | .colon :: _ => jsonWs b
+  | .string :: _ => !(b == 92 || b == 34)
+  | .number :: _ => numChar b
+  | _ => false
+
+/-- effect of the scanned run: `self.bytes.extend_from_slice(s)` in `String`/`Number` -/
+def scanAbsorb (s : JState) (run : Bytes) : JState :=
+  match s.stack with
+  | .string :: _ => { s with tape := s.tape.pushBytes run }
+  | .number :: _ => { s with tape := s.tape.pushBytes run }
+  | _ => s
+
+/-- one round of the loop of `TapeDecoder::decode` (with the `flush` of the push protocol) -/
+def jIter (cfg : JCfg) (s : JState) (buf : Bytes) : JState × List Tape × Nat :=
+  if s.err.isSome then (s, [], 0) else
+  let run := buf.takeWhile (scanPred s)
+  let s1 := scanAbsorb s run
+  match buf.drop run.length with
+  | [] => (s1, [], run.length)
+  | c :: _ => let r := jStep cfg s1 c; (r.1, r.2, run.length + 1)
+
+/-- `Decoder::decode` + `flush` driven by the push protocol for one chunk, bulk scans included -/
+def jFeedBulk (cfg : JCfg) (s : JState) (chunk : Bytes) : JState × List Tape :=
+  bulkLoop (jIter cfg) s chunk
+
 /-- the final `flush()`: `(last batch, verdict)` -/
 def jFinish (cfg : JCfg) (s : JState) : List Tape × Option JErr :=
   match s.err with
